@@ -122,7 +122,7 @@ Fixpoint kind_of (s : bytes) (script : list bytes) : bytes :=
 (* does a signer with this fault kind count as validly signed (see harness/c06.go for what each
    kind sets up): strict = the version's validity rule, future = event dated 8 days ahead *)
 Definition fault_valid (strict future : bool) (kind : bytes) : bool :=
-  if bytes_eqb kind (bs "good") || bytes_eqb kind (bs "two") then negb (strict && future)
+  if bytes_eqb kind (bs "good") || bytes_eqb kind (bs "two") || bytes_eqb kind (bs "goodjunk") then negb (strict && future)
   else if bytes_eqb kind (bs "expiredlater") then true
   else if bytes_eqb kind (bs "until") then negb strict
   else if bytes_eqb kind (bs "untileq") then negb (strict && future)
@@ -138,7 +138,7 @@ Definition run_keyring (args : list bytes) : bytes :=
           match read_event j with
           | None => bs "noparse"
           | Some _ =>
-              let future := bytes_eqb tsmode (bs "future") in
+              let future := negb (bytes_eqb tsmode (bs "past")) in
               verdict (verify_event ver (lookup_of_arg lk) j
                          (fun r => fault_valid (r_strict r) future (kind_of (r_server r) script)) false)
           end
@@ -156,7 +156,7 @@ Definition prop_keyring (args : list bytes) : bytes :=
           | None => if bytes_eqb flag (bs "wf") then bs "FAIL generator: unparsable" else bs "ok"
           | Some j =>
               if wf_event ver j && lookup_consistent j lk then
-                let future := bytes_eqb tsmode (bs "future") in
+                let future := negb (bytes_eqb tsmode (bs "past")) in
                 let want := verdict (forallb (fun s => fault_valid (required_rule_strict ver) future (kind_of s script))
                                              (required_spec ver j)) in
                 if bytes_eqb obs want then bs "ok"
@@ -308,6 +308,112 @@ Definition prop_dup (args : list bytes) : bytes :=
   | _ => bs "badargs"
   end.
 
+(* ---------- received bytes versus JSON() (hunt C/1, F63) ---------- *)
+(* [ver; event as received; e.JSON(); lookup; mode; valid servers...] : the struct is read from the
+   bytes as received, the message is the redaction of JSON() *)
+Definition run_verify_wire (args : list bytes) : bytes :=
+  match args with
+  | ver :: wire :: canon :: lk :: mode :: valids =>
+      match parse_json wire, parse_json canon with
+      | Some jf, Some jb =>
+          match read_event jf with
+          | None => bs "noparse"
+          | Some _ =>
+              let verr := negb (bytes_eqb mode (bs "ok")) in
+              match verify_requests_wire ver (lookup_of_arg lk) jf jb with
+              | None => bs "err" ++ nl ++ bs "nocall"
+              | Some rs => verdict (negb verr && forallb (fun r => mem_bytes (r_server r) valids) rs) ++ nl ++ fmt_requests rs
+              end
+          end
+      | _, _ => bs "badjson"
+      end
+  | _ => bs "badargs"
+  end.
+
+(* the signers demanded must be those of the bytes that are signed, hashed, stored and served:
+   the verdict for the PDU parsed from the wire must be the verdict for the PDU read back from its
+   own JSON() (sender resolved the same way: the user named in those bytes) *)
+Definition prop_wire (args : list bytes) : bytes :=
+  match args with
+  | ver :: wire :: canon :: lk :: mode :: rest =>
+      match rev rest with
+      | obs :: rvalids =>
+          let valids := rev rvalids in
+          match parse_json canon with
+          | Some jb =>
+              let lk' := match read_event jb with
+                         | Some e => match id_domain 64 (e_sender e) with Some d => 68 :: d | None => bs "E" end
+                         | None => bs "E"
+                         end in
+              let want := run_verify (bs "any" :: ver :: canon :: lk' :: mode :: valids) in
+              if bytes_eqb obs want then bs "ok"
+              else bs "FAIL-FIELDS-VS-BYTES want=" ++ want ++ bs " got=" ++ obs
+          | None => bs "FAIL generator: unparsable"
+          end
+      | [] => bs "badargs"
+      end
+  | _ => bs "badargs"
+  end.
+
+(* ---------- pseudo-ID version: specification oracle (F60) ---------- *)
+(* MSC4014: the event is signed with the sender's room key (and an invite also with the invited
+   room key); the mxid_mapping of a join is for that room key and signed by the homeserver of the
+   user it names.  Plain reading of the event; events outside the plain shape are not judged.
+   [ver; event; mode; n; n valid mapping servers; self-valid names...; observable] *)
+Definition prop_pseudoid (args : list bytes) : bytes :=
+  match args with
+  | ver :: ev :: mode :: n :: rest =>
+      match rev rest, parse_json ev, parse_dec n with
+      | obs :: rrest, Some j, Some k =>
+          let (valids, selfs) := take_n (N.to_nat k) (rev rrest) in
+          let sender := s_str (bs "sender") j in
+          let self_ok := fun x => mem_bytes x selfs in
+          let got := cut_at nl obs in
+          let judge := fun want : bool =>
+            if bytes_eqb got (verdict want) then bs "ok"
+            else bs "FAIL-PSEUDOID want=" ++ verdict want ++ bs " got=" ++ obs in
+          match jget (bs "content") j with
+          | Some (JObj c) =>
+              if negb (s_is_member j) then judge (self_ok sender)
+              else
+                match jget (bs "state_key") j, assoc_first (bs "membership") c with
+                | Some (JStr sk), Some (JStr ms) =>
+                    if bytes_eqb ms (bs "invite") then judge (self_ok sender && self_ok sk)
+                    else if bytes_eqb ms (bs "join") then
+                      match assoc_first (bs "join_authorised_via_users_server") c with
+                      | Some _ => bs "ok"      (* authorising server in a pseudo-ID room: not specified here *)
+                      | None =>
+                          match assoc_first (bs "mxid_mapping") c with
+                          | Some (JObj mm) =>
+                              match assoc_first (bs "user_room_key") mm, assoc_first (bs "user_id") mm,
+                                    assoc_first (bs "signatures") mm with
+                              | Some (JStr key), Some (JStr uid), sigs =>
+                                  let sigs_plain :=
+                                    match sigs with
+                                    | None => true
+                                    | Some (JObj m) => forallb (fun kv => match snd kv with JObj _ => true | _ => false end) m
+                                    | Some _ => false
+                                    end in
+                                  if sigs_plain then
+                                    judge (bytes_eqb mode (bs "ok") && bytes_eqb key sender && proper_id 64 uid
+                                           && forallb (fun d => mem_bytes d valids) (server_of uid)
+                                           && self_ok sender)
+                                  else bs "ok"
+                              | _, _, _ => judge false
+                              end
+                          | _ => judge false          (* a join without a mapping cannot be tied to a user *)
+                          end
+                      end
+                    else judge (self_ok sender)
+                | _, _ => bs "ok"
+                end
+          | _ => bs "ok"
+          end
+      | _, _, _ => bs "badargs"
+      end
+  | _ => bs "badargs"
+  end.
+
 Definition ops_C06 : list (bytes * (list bytes -> bytes)) :=
   [ (bs "C06.verify", run_verify);
     (bs "C06.keyring", run_keyring);
@@ -315,5 +421,8 @@ Definition ops_C06 : list (bytes * (list bytes -> bytes)) :=
     (bs "C06.verify_twin", run_verify_twin);
     (bs "C06.prop.twin", prop_twin);
     (bs "C06.prop.dup", prop_dup);
+    (bs "C06.verify_wire", run_verify_wire);
+    (bs "C06.prop.wire", prop_wire);
+    (bs "C06.prop.pseudoid", prop_pseudoid);
     (bs "C06.prop.verify", prop_verify);
     (bs "C06.prop.keyring", prop_keyring) ].
